@@ -435,8 +435,17 @@ def rule_r4(ctx) -> None:
 def _equality_kind(f: Func, c: ast.AST, p: bool, a: str, b: str) -> Tuple[bool, bool]:
     """(establishes key-set equality, establishes value equality)"""
     nc = normal_compare(c, p)
+
+    def deref(e):
+        if isinstance(e, ast.Name) and e.id not in (a, b):
+            d = assignments_to(f, e.id)
+            if len(d) == 1 and d[0][2] is None:
+                return d[0][1]
+        return e
+
     if nc is not None:
         l, op, r = nc
+        l, r = deref(l), deref(r)
         if op == "==":
             def is_keys(e, name):
                 return (isinstance(e, ast.Call) and isinstance(e.func, ast.Attribute) and e.func.attr == "keys" and isinstance(e.func.value, ast.Name) and e.func.value.id == name) or (
@@ -486,3 +495,7 @@ def check(ctx) -> None:
     rule_r4(ctx)
     c07.rule_e1(ctx, "C01-R5")
     c07.piecewise_findings(ctx, "C01-R5")
+    # R6: a row can only be reported solved by a validator of this run: the flag is reset for every row first (shared with C04-G6)
+    from . import c04
+
+    c04.rule_g6(ctx, pl, "C01-R6")
